@@ -188,7 +188,7 @@ def proof_step(pid):
             res["problems"].append(f"forbidden construct '{bad}' in {p}")
         stmts += len(re.findall(r"^\s*(?:Local\s+|Global\s+)?(?:Theorem|Lemma|Corollary|Example|Fact|Remark|Proposition)\b", src, re.M))
         quds += len(re.findall(r"\bQed\.", src))
-        if not os.path.exists(p[:-2] + ".vo") or os.path.getmtime(p[:-2] + ".vo") < os.path.getmtime(p):
+        if p != pf and (not os.path.exists(p[:-2] + ".vo") or os.path.getmtime(p[:-2] + ".vo") < os.path.getmtime(p)):
             res["ok"] = False
             res["problems"].append(f"{p} is not compiled / stale")
     res["obligations"] = stmts
